@@ -174,7 +174,9 @@ class C08:
         dotend = 0
         for kind, kw in sp[:6 if isdir else 5]:
             if kind == "child-dotdot":
-                subdirs = [d for d in sorted(os.listdir(root)) if os.path.isdir(os.path.join(root, d))]
+                # (a real sub-directory: '<link>/..' is the parent of the link's TARGET for the kernel, another directory)
+                subdirs = [d for d in sorted(os.listdir(root)) if os.path.isdir(os.path.join(root, d))
+                           and not os.path.islink(os.path.join(root, d))]
                 if not subdirs:
                     continue
                 kw = dict(path=os.path.join(root, subdirs[0], ".."))
